@@ -128,14 +128,14 @@ var props = map[string]*propCfg{
 	},
 	"C15": {
 		ID: "C15", Level: "model_checking", Exhaustive: true,
-		Rule:        "TLC enumerates every ordered pair over the domain: every Go numeric kind of the run x every one of 31 boundary points it represents exactly (-2^53 .. 2^53: negatives, zero, halves, min/max of the narrow kinds and their neighbours) plus 11 strings (empty, numeric-looking, prefixes of each other); triples by quantifying over the third value in the invariants. Every pair is exported; the harness builds the real Go values, checks the specification's %v text against fmt, calls compare.Compare and runs the six comparison operators of WHERE on a natively typed row. Non-trivial: operands of different numeric kinds, or a string operand; distinct = distinct ordered pairs.",
+		Rule:        "TLC enumerates every ordered pair over the domain: every Go numeric kind of the run x every one of 31 boundary points it represents exactly (-2^53 .. 2^53: negatives, zero, halves, min/max of the narrow kinds and their neighbours) plus 13 strings (empty, numeric-looking, prefixes of each other, the %v text of 2147483647 as an integer kind and as a float kind); triples by quantifying over the third value in the invariants. Every pair is exported; the harness builds the real Go values, checks the specification's %v text against fmt, calls compare.Compare, runs the six comparison operators of WHERE on a natively typed row, ORDER BY in both directions on the two values (pairs that are not equal), IN over the other value and an equi-join of two one-row tables (joined iff cmp = 0). Non-trivial: operands of different numeric kinds, or a string operand; distinct = distinct ordered pairs.",
 		Assumptions: append([]string{"float64 holds every point of the domain exactly (|x| <= 2^53): 'within the exactly-representable range' of the statement"}, baseAssumptions...),
 		Quick:       []legCfg{mc("pairs", "MC_C15", "C15_quick.cfg", 10*time.Minute)},
 		Thorough:    []legCfg{mc("pairs", "MC_C15", "C15_thorough.cfg", 30*time.Minute)},
 	},
 	"C18": {
 		ID: "C18", Level: "model_checking", Exhaustive: true,
-		Rule:        "TLC enumerates call expressions over a value domain of 16 scalars (NULL, booleans, integers, a fraction, strings incl. empty, numeric-looking and non-ASCII) and 7 arrays (empty, flat, nested two and three levels, with NULLs): every unary function x every value; ELEMENTAT x arrays x indices -1..4 and non-numeric indices; ARRAY / CONCAT x all argument tuples of length 0-2 (thorough 0-3); IF x {true,false,NULL} x value pairs; CHANGETYPE x scalars x 6 type names incl. upper-case and unknown, plus string->double/integer round trips; DATERANGE; CONSTANT x known/unknown keys x configured/not; ENCODE x 5 base names; DECODE(ENCODE(v,b),b') x same / unknown base; DECODE of garbage; HASH x 6 algorithm names; every fixed-arity function x 0-3 arguments. Each case is executed FROM dual, FROM a one-row table and (scalar arguments) with literal arguments; values, errors, opaque-text shape (hex length) and purity (same specification value -> same text, across cases) are compared. Every case counts as non-trivial; distinct = distinct (expression, arguments, constants).",
+		Rule:        "TLC enumerates call expressions over a value domain of 16 scalars (NULL, booleans, integers, a fraction, strings incl. empty, numeric-looking and non-ASCII) and 7 arrays (empty, flat, nested two and three levels, with NULLs): every unary function x every value; ELEMENTAT x arrays x indices -1..4 and non-numeric indices; ARRAY / CONCAT x all argument tuples of length 0-2 (thorough 0-3); IF x {true,false,NULL} x value pairs; CHANGETYPE x scalars x 6 type names incl. upper-case and unknown, plus string->double/integer round trips; DATERANGE; CONSTANT x known/unknown keys x configured/not; ENCODE x 5 base names; DECODE(ENCODE(v,b),b') x same / unknown base; DECODE of garbage; HASH x 6 algorithm names; every fixed-arity function x 0-3 arguments. Each case is executed FROM dual, FROM a one-row table, (scalar arguments) with literal arguments, inside a CTE body, a derived table and both sides of a UNION ALL, and FROM a two-row table whose second row holds the rotated arguments (the specification exports that row's value too: a call is a function of its own row's arguments); values, errors, opaque-text shape (hex length) and purity (same specification value -> same text, across cases) are compared. Every case counts as non-trivial; distinct = distinct (expression, arguments, constants).",
 		Assumptions: append([]string{"ENCODE / HASH are uninterpreted in the specification: bit patterns of base64 / base32 / hex / SHA are not modelled, only round trip, purity and length"}, baseAssumptions...),
 		Quick:       []legCfg{mc("builtins", "MC_C18", "C18_quick.cfg", 10*time.Minute)},
 		Thorough:    []legCfg{mc("builtins", "MC_C18", "C18_thorough.cfg", 30*time.Minute)},
@@ -196,17 +196,17 @@ var props = map[string]*propCfg{
 	},
 	"C12": {
 		ID: "C12", Level: "model_checking", Exhaustive: true,
-		Rule:        "TLC enumerates the matrix of 27 expression forms (column, nested path, missing key, number / string / boolean / NULL literals, + / % ~ -, CASE with and without ELSE, CONCAT, ARRAY, IF, FIRST, TO_UPPER, UNWIND, object and array columns, select-list subquery plain and aggregate, ASYNC and SCOPED calls, nested calls) x 8-11 clause positions (select item, next to *, WHERE operand, CASE arm, function argument, IF argument, HAVING, DISTINCT, ORDER BY key, comparison operand, IN list) plus 11 statement-level forms (GROUP BY aggregates, group star, whole-table aggregates, CTE, derived table, UNION, EXISTS, IN subquery, ORDER BY + LIMIT/OFFSET, SPIN / SPINASYNC, several ASYNC items) x tables of 1..MaxRows rows, and checks that the specification's results are plain values and a function of (query, document). Each case is executed: reflection walk of the real result (only maps, slices, strings, booleans, nil, Go numbers that are finite; no pointer, func, named engine type, cycle, \"<-\" key), encoding/json round trip, and two repetitions on equal inputs (equal sequence; equal multiset when ORDER BY leaves ties or a join is involved). Non-trivial: a non-empty successful result; distinct = distinct (document, query).",
+		Rule:        "TLC enumerates the matrix of 27 expression forms (column, nested path, missing key, number / string / boolean / NULL literals, + / % ~ -, CASE with and without ELSE, CONCAT, ARRAY, IF, FIRST, TO_UPPER, UNWIND, object and array columns, select-list subquery plain and aggregate, ASYNC and SCOPED calls, nested calls) x 8-11 clause positions (select item, next to *, WHERE operand, CASE arm, function argument, IF argument, HAVING, DISTINCT, ORDER BY key, comparison operand, IN list) plus 17 statement-level forms (GROUP BY aggregates, group star, whole-table aggregates, CTE, derived table, UNION, EXISTS, IN subquery, ORDER BY + LIMIT/OFFSET, SPIN / SPINASYNC, several ASYNC items) x tables of 1..MaxRows rows, and checks that the specification's results are plain values and a function of (query, document). Each case is executed: reflection walk of the real result (only maps, slices, strings, booleans, nil, Go numbers that are finite; no pointer, func, named engine type, cycle, \"<-\" key), encoding/json round trip, and repetitions on equal inputs (2; 5 when ORDER BY leaves ties; 8 with ASYNC calls or NULL join keys): the identical sequence, or - only when grouping or a join is involved and ORDER BY does not determine a total order - the equal multiset. Statement forms include DISTINCT + ORDER BY with ties (with and without LIMIT) and joins on a table whose key is NULL / missing in some rows. Non-trivial: a non-empty successful result; distinct = distinct (document, query).",
 		Assumptions: baseAssumptions,
 		Quick:       []legCfg{mc("matrix", "MC_C12", "C12_quick.cfg", 10*time.Minute)},
 		Thorough:    []legCfg{mc("matrix", "MC_C12", "C12_thorough.cfg", 30*time.Minute), mc("compose", "MC_C07", "C11_C07.cfg", 10*time.Minute), mc("group", "MC_C03", "C11_C03.cfg", 10*time.Minute)},
 	},
 	"C04": {
 		ID: "C04", Level: "model_checking", Exhaustive: true,
-		Rule:        "TLC enumerates every pair of tables of 0..MaxRows rows (quick: <= 1 row per side with all 50 ON expressions and <= 2 rows with a core of 7; thorough: <= 2 rows with all 50 and <= 3 rows with the core) (two join columns per side - a number and a string - whose names sort differently on the two sides, duplicate keys, with Wide strings containing the key-text separator) x 50 ON expressions (every comparison operator in both orientations on the numeric pair, =, !=, < on the string pair, AND / OR of two comparisons in either order and orientation, one column compared twice) x {INNER, LEFT, RIGHT}, and checks that the operational models of the hash join and of the nested loop (Joins.tla) are bag-equal to the textbook join for every strategy Join.Exec can choose. Each case is executed under every spelling of the strategy (JOIN, INNER JOIN, HASH_JOIN, STRAIGHT_JOIN, PARALLEL JOIN, PARALLEL HASH_JOIN, PARALLEL STRAIGHT_JOIN; LEFT / RIGHT x {JOIN, HASH_JOIN, PARALLEL JOIN, PARALLEL HASH_JOIN}; PARALLEL ones three times) and the result compared as a multiset with the exported textbook result. Non-trivial: non-empty join result; distinct = distinct (tables, ON, type).",
+		Rule:        "TLC enumerates every pair of tables of 0..MaxRows rows (quick: <= 1 row per side with all 50 ON expressions and <= 2 rows with a core of 7; thorough: <= 2 rows with all 50 and <= 3 rows with the core) (two join columns per side - a number and a string - whose names sort differently on the two sides, duplicate keys, with Wide strings containing the key-text separator, with Big the numeric keys 2^24 and 2^24 + 1) x 50 ON expressions (every comparison operator in both orientations on the numeric pair, =, !=, < on the string pair, AND / OR of two comparisons in either order and orientation, one column compared twice) x {INNER, LEFT, RIGHT}, and checks that the operational models of the hash join and of the nested loop (Joins.tla) are bag-equal to the textbook join for every strategy Join.Exec can choose. Each case is executed under every spelling of the strategy (JOIN, INNER JOIN, HASH_JOIN, STRAIGHT_JOIN, PARALLEL JOIN, PARALLEL HASH_JOIN, PARALLEL STRAIGHT_JOIN; LEFT / RIGHT x {JOIN, HASH_JOIN, PARALLEL JOIN, PARALLEL HASH_JOIN}; PARALLEL ones three times) and the result compared as a multiset with the exported textbook result. Non-trivial: non-empty join result; distinct = distinct (tables, ON, type).",
 		Assumptions: baseAssumptions,
-		Quick:       []legCfg{mc("allons", "MC_C04", "C04_quick.cfg", 15*time.Minute), mc("rows2", "MC_C04", "C04_quick2.cfg", 15*time.Minute), mc("wide", "MC_C04", "C04_wide.cfg", 15*time.Minute), tr("joins", "EngineTrace", 250, 4)},
-		Thorough:    []legCfg{mc("joins", "MC_C04", "C04_full2.cfg", 30*time.Minute), mc("wide", "MC_C04", "C04_wide.cfg", 15*time.Minute), mc("rows3", "MC_C04", "C04_thorough.cfg", 90*time.Minute), tr("joins", "EngineTrace", 1500, 12)},
+		Quick:       []legCfg{mc("allons", "MC_C04", "C04_quick.cfg", 15*time.Minute), mc("rows2", "MC_C04", "C04_quick2.cfg", 15*time.Minute), mc("wide", "MC_C04", "C04_wide.cfg", 15*time.Minute), mc("big", "MC_C04", "C04_big.cfg", 15*time.Minute), tr("joins", "EngineTrace", 250, 4)},
+		Thorough:    []legCfg{mc("joins", "MC_C04", "C04_full2.cfg", 30*time.Minute), mc("wide", "MC_C04", "C04_wide.cfg", 15*time.Minute), mc("big", "MC_C04", "C04_big.cfg", 15*time.Minute), mc("big2", "MC_C04", "C04_big2.cfg", 15*time.Minute), mc("rows3", "MC_C04", "C04_thorough.cfg", 90*time.Minute), tr("joins", "EngineTrace", 1500, 12)},
 	},
 	"C14": {
 		ID: "C14", Level: "model_checking", Exhaustive: true,
@@ -253,7 +253,7 @@ var props = map[string]*propCfg{
 	},
 	"C13": {
 		ID: "C13", Level: "model_checking", Race: true,
-		Rule:        "Cache.tla: all interleavings of 3 goroutines x 2 selector texts through the cache protocol of ExecReader with map accesses as begin / end pairs (NoOverlap, OwnEntry, UnderLock, NoSelfDeadlock with a goroutine whose evaluation re-enters ExecReader to resolve a CTE, termination under fairness); the pinned read-after-unlock protocol must violate NoOverlap and holding the mutex during evaluation NoSelfDeadlock. Markers.tla (C11) adds RowsUntouched: a query writes nothing into the caller's rows at any time, which is what makes one document shareable. Binding: (T) the guarded hook in ExecReader reports every protocol step of every goroutine with the fact whether the cache mutex is held (TryLock); 2-8 free-running goroutines evaluate fresh and shared selector texts and the recorded sequence is validated against CacheTrace (lock only a free mutex, store / read only as holder, fact = held at every step). (X) 23 scenario classes - separate documents / one shared document; fresh / cached selector texts; filter, projection, select-list subquery, EXISTS, IN subquery, CTE, GROUP BY, ORDER BY, Wrapped, PARALLEL joins, ASYNC / SPINASYNC at top level, in a subquery and in a derived table, CTEs read through a path, one open-range selector text over arrays of different lengths - x 2..8 (thorough 2..16) goroutines x 60 (300) queries each, in a child process built with the race detector: every goroutine's result must equal the query's result when run alone, and a race report, a 'concurrent map' fatal error, a crash, a hang or a modified shared document is a violation. Non-trivial: every scenario run; distinct = distinct (scenario, goroutine count).",
+		Rule:        "Cache.tla: all interleavings of 3 goroutines x 2 selector texts through the cache protocol of ExecReader with map accesses as begin / end pairs (NoOverlap, OwnEntry, UnderLock, NoSelfDeadlock with a goroutine whose evaluation re-enters ExecReader to resolve a CTE, termination under fairness); the pinned read-after-unlock protocol must violate NoOverlap and holding the mutex during evaluation NoSelfDeadlock. Markers.tla (C11) adds RowsUntouched: a query writes nothing into the caller's rows at any time, which is what makes one document shareable. Binding: (T) the guarded hook in ExecReader reports every protocol step of every goroutine with the fact whether the cache mutex is held (TryLock); 2-8 free-running goroutines evaluate fresh and shared selector texts and the recorded sequence is validated against CacheTrace (lock only a free mutex, store / read only as holder, fact = held at every step). (X) 30 scenario classes - separate documents / one shared document; fresh / cached selector texts; filter, projection, select-list subquery, EXISTS, IN subquery, CTE, GROUP BY, ORDER BY, Wrapped, PARALLEL joins, ASYNC / SPINASYNC at top level, in a subquery and in a derived table, CTEs read through a path, one open-range selector text over arrays of different lengths, a lone * with and without ORDER BY / LIMIT / DISTINCT and an unaliased join on the shared document, and two cold classes (rounds of a RegisterImmediateFunction that has returned followed by concurrent first function calls, with the expectation written down instead of obtained from the library) - x 2..8 (thorough 2..16) goroutines x 60 (300) queries each, in a child process built with the race detector: every goroutine's result must equal the query's result when run alone, and a race report, a 'concurrent map' fatal error, a crash, a hang or a modified shared document is a violation. Non-trivial: every scenario run; distinct = distinct (scenario, goroutine count).",
 		Assumptions: append([]string{"the Go race detector and the process exit status are observation channels on the executions the scenario driver produces; races in code no scenario exercises are not seen", "goroutine schedules are those the Go scheduler produces during the runs (not enumerated)"}, baseAssumptions...),
 		Quick: []legCfg{
 			{Kind: "mc", Name: "cache", Module: "Cache", Cfg: "Cache_ok.cfg", Timeout: 5 * time.Minute, TLCWorkers: 4, NoExport: true},
@@ -276,10 +276,10 @@ var props = map[string]*propCfg{
 	},
 	"C16": {
 		ID: "C16", Level: "model_checking", Exhaustive: true,
-		Rule:        "Lexers.tla models the sanitizer (its lexer state by state, QuoteString) and the string / quoted-identifier / comment scanning of the MySQL-dialect tokenizer (backslash decoding as in scanStringSlow). TLC enumerates every argument string of length <= MaxLen over an adversarial alphabet (quote, backslash, double quote, dash, hash, star, slash, space, a letter, percent, NUL, a two-byte rune, newline, back quote) x templates with placeholders in literal positions - also next to $n inside a string literal containing an escaped quote, a back-quoted identifier, a block comment, a # comment and a -- comment - and checks that the tokens of the sanitized text are the template's tokens with one string literal per placeholder whose decoded content is exactly the argument (Safe), that QuoteString followed by the tokenizer's scanning is the identity, that $0 / missing / unused arguments are errors. Every case is replayed: the real SanitizeSQL output must equal the specification's text, the real parser's AST of the sanitized text must have the shape of the template with a plain literal, and executing it must echo the argument. A driver adds int64, float64, bool and nil arguments and the arity errors. Non-trivial: the argument contains a character that is special for the sanitizer or the tokenizer; distinct = distinct (template, argument).",
+		Rule:        "Lexers.tla models the sanitizer (its lexer state by state, QuoteString) and the string / quoted-identifier / comment scanning of the MySQL-dialect tokenizer (backslash decoding as in scanStringSlow). TLC enumerates every argument string of length <= MaxLen over an adversarial alphabet (quote, backslash, double quote, dash, hash, star, slash, space, a letter, percent, NUL, a two-byte rune, newline, back quote) x templates with placeholders in literal positions - also next to $n inside a string literal containing an escaped quote, a back-quoted identifier, a back-quoted identifier ending in a backslash followed by a literal holding a back quote, a block comment, a # comment and a -- comment - and checks that the tokens of the sanitized text are the template's tokens with one string literal per placeholder whose decoded content is exactly the argument (Safe), that QuoteString followed by the tokenizer's scanning is the identity, that $0 / missing / unused arguments are errors. Every case is replayed: the real SanitizeSQL output must equal the specification's text, the real parser's AST of the sanitized text must have the shape of the template with a plain literal, and executing it must echo the argument. A driver adds int64, float64, bool and nil arguments and the arity errors. Non-trivial: the argument contains a character that is special for the sanitizer or the tokenizer; distinct = distinct (template, argument).",
 		Assumptions: append([]string{"non-finite floats (NaN, Inf) are outside the claim; []byte and time.Time arguments are not covered"}, baseAssumptions...),
 		Quick:       []legCfg{mc("strings", "MC_C16", "C16_quick.cfg", 15*time.Minute), {Kind: "exec", Name: "kinds", Mode: "kinds", Timeout: 2 * time.Minute}},
-		Thorough:    []legCfg{mc("strings", "MC_C16", "C16_thorough.cfg", 90*time.Minute), mc("deep", "MC_C16", "C16_deep.cfg", 90*time.Minute), {Kind: "exec", Name: "kinds", Mode: "kinds", Timeout: 2 * time.Minute}},
+		Thorough:    []legCfg{mc("strings", "MC_C16", "C16_thorough.cfg", 120*time.Minute), mc("deep", "MC_C16", "C16_deep.cfg", 120*time.Minute), mc("deep9", "MC_C16", "C16_deep9.cfg", 30*time.Minute), {Kind: "exec", Name: "kinds", Mode: "kinds", Timeout: 2 * time.Minute}},
 	},
 	"C17": {
 		ID: "C17", Level: "model_checking", Exhaustive: true,
@@ -292,7 +292,7 @@ var props = map[string]*propCfg{
 	},
 	"C10": {
 		ID: "C10", Level: "exploration",
-		Rule:        "Contain.tla models one New + Exec call passing through its regions with a panic possible at every step in the API goroutine and in every background goroutine (strategy calls, PARALLEL join workers) and a re-entrant CTE resolution; TLC checks that the process survives, nothing escapes the API and the call returns, and that removing any one recover (or the CTE guard) violates that - the five deviation configurations are the pinned tree's gaps. Binding by exploration: TLC enumerates the matrix of 102 constructs (every unsupported / malformed / failing construct the property names and many more: joins without condition, chained unions, self- and mutually-referencing CTEs, unbalanced brackets, out-of-range FROM paths, PARALLEL joins and ASYNC / SPIN / SPINASYNC / ONCE calls whose function fails or panics with an error or a non-error value, panics inside CTE bodies / derived tables / subqueries, DISTINCT over a subquery plus *, deep nesting, malformed and non-SELECT statements, NUL bytes, invalid UTF-8, ...) x all 8 combinations of Wrapped / PostgresEscapingDialect / IdiomaticArrays x {well-shaped, empty, wrong-shaped} documents; every cell is executed, followed by 6 (thorough: 60) seeded byte-level mutations of its text: New / Exec must return. A panic escaping the API is caught by the worker; a dying process (goroutine panic, fatal error, stack overflow) or a case exceeding its time limit is attributed to the cell by the orchestrator. Non-trivial: every cell; distinct = distinct (construct, options, document).",
+		Rule:        "Contain.tla models one New + Exec call passing through its regions with a panic possible at every step in the API goroutine and in every background goroutine (strategy calls, PARALLEL join workers) and a re-entrant CTE resolution; TLC checks that the process survives, nothing escapes the API and the call returns, and that removing any one recover (or the CTE guard) violates that - the five deviation configurations are the pinned tree's gaps. Binding by exploration: TLC enumerates the matrix of 114 constructs (every unsupported / malformed / failing construct the property names and many more: joins without condition, chained unions, self- and mutually-referencing CTEs, unbalanced brackets, out-of-range FROM paths, PARALLEL joins and ASYNC / SPIN / SPINASYNC / ONCE calls whose function fails or panics with an error or a non-error value, panics inside CTE bodies / derived tables / subqueries, DISTINCT over a subquery plus *, CTEs over dual read with DISTINCT / UNION / ORDER BY, deep nesting, malformed and non-SELECT statements, NUL bytes, invalid UTF-8, ...) x all 8 combinations of Wrapped / PostgresEscapingDialect / IdiomaticArrays x {well-shaped, empty, wrong-shaped, wide (40 rows), grid (rows that are arrays)} documents; every cell is executed, followed by 6 (thorough: 60) seeded byte-level mutations of its text: New / Exec must return. A panic escaping the API is caught by the worker; a dying process (goroutine panic, fatal error, stack overflow) or a case exceeding its time limit is attributed to the cell by the orchestrator. Non-trivial: every cell; distinct = distinct (construct, options, document).",
 		Assumptions: append([]string{"'for all byte strings' is sampled: the exact matrix cells plus seeded mutations around them; inputs the harness does not run are not decided", "a hang is a case that does not answer within 20 s"}, baseAssumptions...),
 		Quick: []legCfg{
 			{Kind: "mc", Name: "contain", Module: "Contain", Cfg: "Contain_ok.cfg", Timeout: 5 * time.Minute, TLCWorkers: 2, NoExport: true},
